@@ -25,6 +25,7 @@ mod c14;
 mod c08;
 mod c18;
 mod c17;
+mod e01;
 mod c05;
 
 #[global_allocator]
@@ -62,6 +63,7 @@ fn props() -> Vec<Prop> {
         Prop { id: "C18", run: c18::run, gen: c18::gen },
         Prop { id: "C17", run: c17::run, gen: c17::gen },
         Prop { id: "C05", run: c05::run, gen: c05::gen },
+        Prop { id: "E01", run: e01::run, gen: e01::gen },
     ]
 }
 
